@@ -848,6 +848,20 @@ def r06_12(ctx: Ctx, rule: str = "R06.12") -> None:
         from ..inline import known_functions
 
         def none_guard_helper(call: ast.AST):
+            """the value a predicate helper answers with for a folder WITHOUT a member list (None when `call` is no such helper)"""
+            v = _none_guard_method(call)
+            if v is not None:
+                return True
+            e = shared.pred_helper_expr(ctx, ex, call)
+            if e is None:
+                return None
+            try:
+                vals = {bool(shared.folder_pred_eval(e, True, sk, se)) for sk in (True, False) for se in (True, False)}
+            except (shared.Touched, shared.Unknown):
+                return None
+            return vals.pop() if len(vals) == 1 else None
+
+        def _none_guard_method(call: ast.AST):
             if not (isinstance(call, ast.Call) and isinstance(call.func, ast.Attribute) and norm(call.func.value) == "self"):
                 return None
             m = ctx.prog.method(wcls, call.func.attr)
@@ -878,7 +892,8 @@ def r06_12(ctx: Ctx, rule: str = "R06.12") -> None:
             pi = none_guard_helper(call)
             if pi is not None:
                 neg = call is not t.ast
-                guards.append((t, next((s_ for s_ in t.succ if s_.kind == ("false" if neg else "true")), None)))
+                # the edge taken for a folder without a member list: where the test has the value the helper answers with for such a folder
+                guards.append((t, next((s_ for s_ in t.succ if s_.kind == ("true" if (pi != neg) else "false")), None)))
         for t in ecfg.nodes:
             if t.kind != "test" or not any(t.ast is x for x in ast.walk(lp)):
                 continue
